@@ -640,6 +640,7 @@ def run(chk):
     rule_optext(chk, fm, px, lx)
     rule_adj(chk, fm, px, lx)
     rule_lit(chk, fm)
+    rule_lit_roundtrip(chk)
 
 
 def rule_total(chk, fm):
@@ -1000,6 +1001,81 @@ def rule_adj(chk, fm, px, lx):
                        "binary operator %s is emitted without a separating space (%s): adjacent operator characters can merge"
                        % (parent[1], "before" if not before_ok else "after"), where(sub))
     chk.floor("C09.floor/adjacency-instances", n, 30, "adjacency instances examined")
+
+LIT_TOKEN = {"IntUntyped": "LiteralInt", "IntUnsigned32": "LiteralIntUnsigned32", "IntUnsigned64": "LiteralIntUnsigned64", "IntSigned64": "LiteralIntSigned64",
+             "FloatUntyped": "LiteralFloat", "Float16": "LiteralFloat16", "Float32": "LiteralFloat32", "Float64": "LiteralFloat64"}
+_F64 = [0.0, 0.5, 1.5, 3.0, 7.0, 0.055, 0.0031308, 1e25, 1e-7, 123456789.125, 9007199254740992.0, 1e19, 9.3e18, 1.7976931348623157e308, 5e-324, 2.2250738585072014e-308, float("inf")]
+_F32 = [I.F32(x) for x in (0.0, 0.5, 3.0, 0.1, 0.0031308, 16777216.0, 1e19, 2.5e30, 3.4028234663852886e38, 1.401298464324817e-45, 65504.0, 7e-10)] + [float("inf")]
+LIT_SAMPLES = {
+    "IntUntyped": [0, 1, 42, 4294967295, 4294967296, (1 << 63) - 1, 1 << 63, (1 << 64) - 1],
+    "IntUnsigned32": [0, 7, 4294967295],
+    "IntUnsigned64": [0, 7, 4294967296, (1 << 64) - 1],
+    "IntSigned64": [0, 7, 4294967296, (1 << 63) - 1],
+    "FloatUntyped": _F64, "Float64": _F64, "Float32": _F32, "Float16": [0.0, 0.5, 3.0, 2.0, 65504.0, 0.0999755859375, float("inf")],
+}
+
+
+def rule_lit_roundtrip(chk, prefix="C09.lit"):
+    """format_literal and the lexer's token function both walked by the finite-map reader: a non-negative literal of
+    every kind, printed for every target and lexed again, is one token of the corresponding kind with the same value."""
+    f = chk.facts
+    fl = f.fn("format_literal", FMT)
+    ti = f.fn("token_intermediate", "rssl_preprocess")
+    if not fl or not ti:
+        return False
+    ip = I.Interp(f, max_depth=12, extern={})
+    ip.max_loop = 1024
+    targets = f.variants("Target", FMT) or f.variants("formatter::Target", FMT) or ["HlslForDirectX"]
+    # literal kinds an exporter never hands to the printer (its generate_literal refuses the constant) are not
+    # printed for that exporter's target
+    CONST_OF = {"FloatUntyped": "FloatLiteral", "Float16": "Float16", "Float32": "Float32", "Float64": "Float64", "IntUntyped": "IntLiteral",
+                "IntUnsigned32": "UInt32", "IntUnsigned64": "UInt64", "IntSigned64": "Int64"}
+    refused = set()
+    for tgt, crate in (("Msl", "rssl_msl"), ("Hlsl", "rssl_hlsl")):
+        gl = f.fn("generate_literal", crate)
+        if not gl or tgt not in targets:
+            continue
+        for kind, ck in CONST_OF.items():
+            try:
+                r0 = ip.apply(gl, [I.Enum("Constant", ck, {"0": LIT_SAMPLES[kind][1]}), I.Opaque("context")])
+                if isinstance(r0, I.Enum) and r0.variant == "Err":
+                    refused.add((tgt, kind))
+            except I.Unknown:
+                pass
+    n = 0
+    for kind, vals in LIT_SAMPLES.items():
+        bad = None
+        for tgt in targets:
+            if (tgt, kind) in refused:
+                continue
+            for v in vals:
+                n += 1
+                env = {"out": ""}
+                try:
+                    ip.apply(fl, [I.Enum("Literal", kind, {"0": v}), I.Ref(env, "out"), I.Enum("FormatContext", None, {"target": I.Enum("Target", tgt)})])
+                    text = env["out"]
+                    if not text or not text[0].isdigit():
+                        continue        # infinities are printed as names / expressions of the target language, not as literals
+                    r = ip.apply(ti, [list(text.encode()), False])
+                except I.Unknown as e:
+                    if "panicking" in str(e):
+                        bad = bad or "%s(%r) for %s: printing or lexing aborts (%s)" % (kind, v, tgt, str(e)[:60])
+                        continue
+                    return False
+                ok = False
+                if isinstance(r, I.Enum) and r.variant == "Ok":
+                    rest, tok = r.fields["0"]
+                    got = tok.fields.get("0") if isinstance(tok, I.Enum) else None
+                    ok = not rest and isinstance(tok, I.Enum) and tok.variant == LIT_TOKEN[kind] and (got == v or (isinstance(got, float) and isinstance(v, float) and got == v))
+                    if not ok:
+                        bad = bad or "%s(%r) is printed as `%s` (%s), which lexes as %s%s" % (kind, v, text, tgt, tok, " followed by `%s`" % bytes(rest).decode("latin1") if rest else "")
+                else:
+                    bad = bad or "%s(%r) is printed as `%s` (%s), which does not lex" % (kind, v, text, tgt)
+        chk.ob("%s/roundtrip/%s" % (prefix, kind), bad is None, "%d values x %d targets: printed text lexes back to the same literal" % (len(vals), len(targets)) if bad is None else bad,
+               where(fl), sample={"kind": kind, "values": len(vals)})
+    chk.floor("%s/roundtrip-floor" % prefix.replace(".lit", ".floor"), n, 100, "literal values printed and lexed", where(fl))
+    return True
+
 
 
 def rule_lit(chk, fm):
